@@ -644,7 +644,9 @@ inline bool dec_entry(In& in, E* entry) {
   }
   if (size > avail) return fail(in, nop::ErrorStatus::ReadLimitReached);  // padding bytes missing
   in.pos += size;
-  *entry = t;
+  // through Optional<T>, not `*entry = t`: when T is itself an Optional<U> the converting assignment
+  // operator=(const Optional<U>&) would be selected and treat t as an optional *of* the entry's value
+  static_cast<nop::Optional<T>&>(*entry) = nop::Optional<T>(t);
   return true;
 }
 // decoder: skip the SIZE-framed value of an unknown or deleted entry
